@@ -5,9 +5,13 @@
    sorted list; run_cursor l ms = what every call of the sequence ms shows).  The model machines
    (Iter/Merged.v, Iter/Indexed.v, Iter/DBIter.v) mirror the Go iterators and take their children
    as black boxes that behave like cursors ([refines]). *)
-From GL Require Import Base.Order Base.OrderProofs Codec.IKey Codec.IKeyProofs
-  Iter.Cursor Iter.CursorProofs Iter.Merged Iter.MergedProofs Iter.Indexed Iter.IndexedProofs
-  Iter.DBIter Iter.LiveProofs Iter.DBIterProofs Iter.StackProofs Gen.ConstsOkC02 Corr.Cmps.
+From GL Require Import Base.Bytes Base.Order Base.OrderProofs Codec.IKey Codec.IKeyProofs Codec.Block Codec.Table Codec.TableProofs
+  Lsm.Lsm Lsm.LsmProofs Lsm.ReadPath Lsm.ReadPathMem Lsm.ReadPathProofs Lsm.IterPath Lsm.IterPathChild Lsm.IterPathLevel
+  Lsm.IterPathProofs Lsm.IterPathAbs.
+From GL Require Mem.MemDB.
+From GL Require Import Iter.Cursor Iter.CursorProofs Iter.Merged Iter.MergedProofs Iter.Indexed Iter.IndexedProofs
+  Iter.DBIter Iter.LiveProofs Iter.DBIterProofs Iter.StackProofs Iter.DBIterCong Iter.InvertedProofs Iter.IterErr Iter.IterErrProofs
+  Gen.ConstsOkC02 Corr.Cmps.
 Close Scope N_scope.
 
 (* 1. dbIter: over ANY raw iterator that behaves like a cursor over the strictly icmp-sorted,
@@ -152,6 +156,237 @@ Theorem C02_indexed_is_cursor : forall (K V D I C : Type) (kcmp : K -> K -> comp
 Proof. exact indexed_is_cursor. Qed.
 Print Assumptions C02_indexed_is_cursor.
 
+(* 8. Inverted and empty ranges: with Start >= Limit the view is empty, and an iterator over an empty view
+      answers every call of every walk with (false, nil, nil).  (DB.NewIterator used to panic on such a
+      range once a sorted level held tables between the bounds; repaired, and generated by the harness.) *)
+Theorem C02_inverted_range_empty : forall c, comparer_ok c -> forall (start limit : bytes) (l : list (bytes * bytes)),
+  cmp c start limit <> Lt -> filter (fun kv => in_range c (Some start) (Some limit) (fst kv)) l = [].
+Proof. exact inverted_range_empty. Qed.
+Print Assumptions C02_inverted_range_empty.
+
+Theorem C02_empty_view_shows_nothing : forall (K V : Type) (f : K -> K -> comparison) (ms : list (move K)),
+  run_cursor f ([] : list (K * V)) ms = map (fun _ => (false, None)) ms.
+Proof. intros K V. exact (@run_cursor_nil K V). Qed.
+Print Assumptions C02_empty_view_shows_nothing.
+
+(* 9. END TO END ON BYTES.  The children of the DB's merged iterator are no longer black boxes:
+      Lsm/IterPath.v builds them as DB.newRawIterator does - the memdb iterator of property C14 over the
+      array-encoded skip lists (transaction's memdb first, then the live and the frozen one), the table
+      iterator of property C13 over the BYTES of every level-0 table file (and of the transaction's tables),
+      one indexed iterator per non-empty deeper level over tFiles.newIndexIterator (the level cut at
+      searchMax(Start) / searchMin(Limit), tFilesArrayIndexer.Get handing the slice on to the first and the
+      last table only) - puts the merged iterator and dbIter on top and converts the range as DB.newIterator
+      does.  Keys travel encoded below dbIter and parsed inside it. *)
+
+(* 9a. the memdb iterator over a memdb state satisfying C14's representation invariant is a cursor over the
+       pairs of the skip list inside the slice, and no call of the array model panics or runs out of fuel *)
+Theorem C02_mem_child_refines : forall c, comparer_ok c -> forall p, (keyTypeSeek p <= keyTypeVal p)%N ->
+  forall mp, MemDB.mparams_ok mp -> forall d sl, mem_ok c p mp d ->
+  refines (cmp (ibc c)) (mc_step c mp) mc_obs (mc_new d sl) (sl_pairs (ibc c) sl (mem_pairs mp d)).
+Proof. exact mem_child_refines. Qed.
+Print Assumptions C02_mem_child_refines.
+
+Theorem C02_mem_child_total : forall c, comparer_ok c -> forall p mp, MemDB.mparams_ok mp -> forall d sl ms,
+  mem_ok c p mp d -> mc_bad (bb_run (mc_step c mp) (mc_new d sl) ms) = false.
+Proof. exact mem_child_total. Qed.
+Print Assumptions C02_mem_child_total.
+
+(* 9b. the table iterator over the bytes of a file that C13's format check accepts is a cursor over the
+       file's pairs inside the slice *)
+Theorem C02_tab_child_refines : forall c, comparer_ok c -> forall tp crc decompress fname ufc verify strict f bl se hs sl,
+  table_wf (ibc c) (tf_reader c tp crc decompress fname ufc verify f) bl se hs ->
+  refines (cmp (ibc c)) (tc_step c) tc_obs (tc_new c tp crc decompress fname ufc verify strict f sl)
+          (sl_pairs (ibc c) sl (tkvs bl)).
+Proof. exact tab_child_refines. Qed.
+Print Assumptions C02_tab_child_refines.
+
+(* 9c. one sorted level: the indexed iterator over tFiles.newIndexIterator is a cursor over the pairs of ALL
+       tables of the level inside the slice - the cut drops only tables wholly outside [Start, Limit), the
+       tables strictly inside the cut need no slicing (the first/last rule), an inverted range cuts to nothing *)
+Theorem C02_level_refines : forall c, comparer_ok c -> forall tp crc decompress fname ufc verify strict prs ts sl fuel,
+  level_ok c tp crc decompress fname ufc verify strict prs ts -> length ts < fuel ->
+  refines (cmp (ibc c)) (lv_step c tp crc decompress fname ufc verify strict fuel) lv_obs
+          (x_init (new_index_iterator c ts sl)) (sl_pairs (ibc c) sl (lv_pairs prs ts)).
+Proof. exact level_refines. Qed.
+Print Assumptions C02_level_refines.
+
+(* 9d. dbIter is parametric in its raw iterator: raw iterators indistinguishable by First/Last/Next/Prev and
+       Seek with keys of a class P drive it to the same outputs (used at the encoded/parsed key boundary) *)
+Theorem C02_dbiter_parametric : forall c p (C1 C2 : Type) step1 obs1 step2 obs2 seq strict (P : ikey -> Prop) f
+  (x1 : C1) (x2 : C2) ms,
+  sim C1 C2 step1 obs1 step2 obs2 P x1 x2 -> Forall (umove_in p seq P) ms ->
+  db_run c p C1 step1 obs1 seq strict f (db_init x1) ms = db_run c p C2 step2 obs2 seq strict f (db_init x2) ms.
+Proof. exact db_run_cong_init. Qed.
+Print Assumptions C02_dbiter_parametric.
+
+(* 9e. THE COMPOSITION.  For every lawful user comparer, every well-formed byte state with a write buffer
+       (ReadPathProofs.wf_bstate: memdbs satisfy C14's invariant, every table file passes C13's format
+       check with decodable keys and recorded bounds, the abstraction is a well-formed L1 layout), every
+       sequence number, every range (bounds optional, nil range, INVERTED ranges included) and every finite
+       sequence of First/Last/Seek/Next/Prev whose keys are byte strings: the DB iterator over the real
+       children shows exactly what the reference cursor over lsm_view shows - the live pairs, at that
+       sequence number, of the entries of [abs st] in internal-key order, restricted to [Start, Limit).
+       In particular it never panics and never runs out of fuel (the result is Some). *)
+Theorem C02_db_iterator_correct_bytes : forall c, comparer_ok c -> forall p, dbparams_ok p ->
+  forall mp, MemDB.mparams_ok mp ->
+  forall tp crc decompress fname ufc verify ri strict st seq slice fuel ms,
+  wf_bstate c p mp tp crc decompress fname ufc verify ri st -> bs_mem st <> None ->
+  (seq <= keyMaxSeq p)%N -> range_wf slice -> Forall umove_wf ms ->
+  length (all_entries (abs c mp tp crc decompress fname ufc verify ri st)) < fuel ->
+  dbi_run c p mp tp crc decompress fname ufc verify strict fuel None [] st seq slice ms =
+  Some (run_cursor (cmp c) (lsm_view c p seq slice (abs c mp tp crc decompress fname ufc verify ri st)) ms).
+Proof. exact db_iterator_correct_bytes. Qed.
+Print Assumptions C02_db_iterator_correct_bytes.
+
+(* 9f. the same with a transaction's private memdb and tables in front (Transaction.NewIterator), over the
+       hypotheses the composition needs of the components (iter_wf: memdbs and files as above, deeper levels
+       sorted, no internal key stored twice); the list is db_entries = all stored pairs merged in the encoded
+       order and parsed.  (The L1 abstraction [abs] has no transaction memdb, hence no lsm_view here.) *)
+Theorem C02_db_iterator_correct_bytes_gen : forall c, comparer_ok c -> forall p, dbparams_ok p ->
+  forall mp, MemDB.mparams_ok mp ->
+  forall tp crc decompress fname ufc verify ri strict auxm auxt st seq slice fuel ms,
+  iter_wf c p mp tp crc decompress fname ufc verify ri auxm auxt st ->
+  (seq <= keyMaxSeq p)%N -> range_wf slice -> Forall umove_wf ms ->
+  length (concat (child_lists c mp tp crc decompress fname ufc verify ri auxm auxt st)) < fuel ->
+  dbi_run c p mp tp crc decompress fname ufc verify strict fuel auxm auxt st seq slice ms =
+  Some (run_cursor (cmp c) (range_view c slice (live_pairs c p seq
+          (db_entries c mp tp crc decompress fname ufc verify ri auxm auxt st))) ms).
+Proof. exact db_iterator_bytes_gen. Qed.
+Print Assumptions C02_db_iterator_correct_bytes_gen.
+
+(* 9g. what lsm_view is, in terms of reads: the pairs an iterator at sequence number s walks are exactly the
+       (key, value) for which the read path of property C01 - lsm_get, which C01_read_path_refines proves equal
+       to DB.Get / Snapshot.Get computed on the bytes - finds that value.  Iterators and point reads agree.
+       Beyond wf_state this needs: no two stored entries share user key AND sequence number (every sequence
+       number is given to one write), and kinds are deletion or value (wf_bstate gives the latter). *)
+Theorem C02_view_agrees_with_get : forall c, comparer_ok c -> forall p, kparams_ok p -> forall st,
+  wf_state c p st -> uniq (all_entries st) ->
+  Forall (fun e => e_kind e = keyTypeDel p \/ e_kind e = keyTypeVal p) (all_entries st) ->
+  forall s u v, In (u, v) (live_pairs c p s (lsm_entries c st)) <-> lsm_get c p st u s = GFound v.
+Proof. exact view_agrees_with_get. Qed.
+Print Assumptions C02_view_agrees_with_get.
+
+(* 10. ERRORS AND RELEASE (Iter/IterErr.v: the error paths of merged_iter.go, indexed_iter.go, db_iter.go -
+       iterErr, indexErr/dataErr, strict vs non-strict, setErr - and Release / use after Release /
+       SetReleaser; children carry an error status). *)
+
+(* 10a. once an error is recorded every movement call returns false, Valid is false, Key/Value are nil and
+        the error stays (merged iterator; dbIter likewise; the indexed iterator returns false for ever -
+        its Key/Value/Valid are those of the data iterator whose call failed) *)
+Theorem C02_merged_error_stops : forall (K V C : Type) chstep chobs cherr pop strict (s : mestate K C) e ms,
+  me_err s = Some e ->
+  me_run K V C chstep chobs cherr pop strict s (map CMove ms) = Some (map (fun _ => dead_out K V e) ms).
+Proof. exact me_error_stops. Qed.
+Print Assumptions C02_merged_error_stops.
+
+Theorem C02_dbiter_error_stops : forall c p (C : Type) chstep chobs cherr seq strict fuel (s : destate C) e ms,
+  de_err s = Some e ->
+  de_run c p C chstep chobs cherr seq strict fuel s (map CMove ms) = Some (map (fun _ => ddead_out e) ms).
+Proof. exact de_error_stops. Qed.
+Print Assumptions C02_dbiter_error_stops.
+
+Theorem C02_indexed_error_stops : forall (K V D I C : Type) istep iobs ierr_of mk dstep dobs derr strict fuel
+  (s : xestate I C) e ms, xe_err s = Some e ->
+  xe_run K V D I C istep iobs ierr_of mk dstep dobs derr strict fuel s (map CMove ms) =
+  Some (map (fun _ => xe_out ierr_of dobs s false) ms).
+Proof. exact xe_error_stops. Qed.
+Print Assumptions C02_indexed_error_stops.
+
+(* 10b. after Release every movement call returns false, Valid is false, Key/Value are nil, and Error() is
+        ErrIterReleased - or the error recorded before the Release, which is kept *)
+Theorem C02_merged_after_release : forall (K V C : Type) chstep chobs cherr pop strict (s : mestate K C) ms,
+  me_run K V C chstep chobs cherr pop strict (me_release s) (map CMove ms) =
+  Some (map (fun _ => dead_out K V (err_after_release (me_err s))) ms).
+Proof. exact me_after_release. Qed.
+Print Assumptions C02_merged_after_release.
+
+Theorem C02_indexed_after_release : forall (K V D I C : Type) istep iobs ierr_of mk dstep dobs derr strict fuel
+  (s : xestate I C) ms,
+  xe_run K V D I C istep iobs ierr_of mk dstep dobs derr strict fuel (xe_release s) (map CMove ms) =
+  Some (map (fun _ => mkEO false None false (Some (err_after_release (xe_err s)))) ms).
+Proof. exact xe_after_release. Qed.
+Print Assumptions C02_indexed_after_release.
+
+Theorem C02_dbiter_after_release : forall c p (C : Type) chstep chobs cherr seq strict fuel (s : destate C) ms,
+  de_run c p C chstep chobs cherr seq strict fuel (de_release s) (map CMove ms) =
+  Some (map (fun _ => ddead_out (err_after_release (de_err s))) ms).
+Proof. exact de_after_release. Qed.
+Print Assumptions C02_dbiter_after_release.
+
+(* 10c. SetReleaser with a second non-nil releaser panics (util.ErrHasReleaser), after Release it panics
+        whatever the argument (util.ErrReleased) *)
+Theorem C02_set_releaser_twice_panics :
+  (forall (K C : Type) (s s1 : mestate K C), me_set_releaser s true = Some s1 -> me_set_releaser s1 true = None) /\
+  (forall (I C : Type) (s s1 : xestate I C), xe_set_releaser s true = Some s1 -> xe_set_releaser s1 true = None) /\
+  (forall (C : Type) (s s1 : destate C), de_set_releaser s true = Some s1 -> de_set_releaser s1 true = None) /\
+  (forall (K C : Type) (s : mestate K C) r, me_set_releaser (me_release s) r = None) /\
+  (forall (I C : Type) (s : xestate I C) r, xe_set_releaser (xe_release s) r = None) /\
+  (forall (C : Type) (s : destate C) r, de_set_releaser (de_release s) r = None).
+Proof.
+  split; [exact me_set_releaser_twice|]. split; [exact xe_set_releaser_twice|]. split; [exact de_set_releaser_twice|].
+  split; [exact me_set_releaser_after_release|]. split; [exact xe_set_releaser_after_release|exact de_set_releaser_after_release].
+Qed.
+Print Assumptions C02_set_releaser_twice_panics.
+
+(* 10d. the merged iterator over children that behave like cursors until one of them FAILS (a fuse: the n-th
+        call on that child returns false with an error that halts the merged iterator - any error under the
+        strict flag, any non-corruption error otherwise): for every call sequence there is a call number j
+        such that the first j outputs are exactly those of the cursor over the merge, with no error recorded,
+        and from call j on the outputs are (false, nil, nil), not valid, with the child's error recorded.
+        It stops, and it never shows a pair the cursor would not show at that call. *)
+Theorem C02_merged_error_prefix : forall (K V C : Type) (kcmp : K -> K -> comparison) chstep chobs pop strict
+  (ls : list (list (K * V))) (fits : list (fchild C)),
+  ord_ok kcmp -> pop_ok K kcmp pop ->
+  Forall (sorted_kv kcmp) ls -> NoDup (map fst (concat ls)) ->
+  Forall2 (fun c l => refines kcmp chstep chobs c l) (map fc_in fits) ls ->
+  Forall (alive_h C strict) fits ->
+  forall ms, exists eouts j e,
+    me_run K V (fchild C) (f_step chstep) (f_obs chobs) f_err pop strict (me_init fits) (map CMove ms) = Some eouts /\
+    degraded K V (length ms) (run_cursor kcmp (merge_lists kcmp ls) ms) eouts j e.
+Proof. exact merged_error_prefix. Qed.
+Print Assumptions C02_merged_error_prefix.
+
+(* 10e. dbIter: a movement call that returns false after having moved the raw iterator records the raw
+        iterator's error (iterErr); the two guards that return false without touching it are listed *)
+Theorem C02_dbiter_false_records_error : forall c p (C : Type) chstep chobs cherr seq strict fuel (s : destate C) m s',
+  de_err s = None -> de_released s = false ->
+  de_move c p C chstep chobs cherr seq strict fuel s m = DEOk s' false ->
+  (m = MNext /\ d_dir (de_base s) = DirEOI /\ s' = s) \/ (m = MPrev /\ d_dir (de_base s) = DirSOI /\ s' = s) \/
+  match cherr (d_child (de_base s')) with
+  | Some e => exists e', de_err s' = Some e'
+  | None => True
+  end.
+Proof. exact de_false_records_error. Qed.
+Print Assumptions C02_dbiter_false_records_error.
+
+(* 10f. REFUTED for dbIter: "an iterator whose child reports an error never yields a pair not in the view".
+        dbIter.prev() breaks out of its loop when i.iter.Prev() returns false and, if it has saved a pair
+        (del == false), returns TRUE without looking at i.iter.Error().  When the raw iterator fails between
+        two versions of one user key, the saved pair is the OLDER version: Last() below returns (k, "o")
+        although the live pair is (k, "n"), Error() is nil; the error surfaces one call later.  (Observed on
+        the implementation: findings/C02_dbiter_prev_stale_on_error.json; known finding
+        dbiter-prev-stale-on-raw-error.)  The same with a deletion marker on top resurrects a deleted key. *)
+Definition stale_entries : list entry :=
+  [ ({| uk := [107]%N; num := pack 5%N 1%N |}, [110]%N);       (* k@5 = "n" *)
+    ({| uk := [107]%N; num := pack 3%N 1%N |}, [111]%N) ].     (* k@3 = "o" *)
+Definition stale_deleted : list entry :=
+  [ ({| uk := [107]%N; num := pack 5%N 0%N |}, []);            (* k@5 deleted *)
+    ({| uk := [107]%N; num := pack 3%N 1%N |}, [111]%N) ].
+(* a raw iterator whose second call fails with a non-corruption error *)
+Definition stale_run (l : list entry) (cs : list (ecall bytes)) :=
+  de_run bytewise kp _ (f_step (cur_step (icmp bytewise))) (f_obs cur_obs) f_err 10%N true 5
+         (de_init (mkFC (l, SOI) (Some 1) EOther false)) cs.
+
+Theorem C02_dbiter_prev_error_yields_stale_refuted :
+  live_pairs bytewise kp 10%N stale_entries = [([107]%N, [110]%N)] /\
+  stale_run stale_entries [CMove MLast; CMove MPrev] =
+    Some [mkEO true (Some ([107]%N, [111]%N)) true None; mkEO false None false (Some EOther)] /\
+  live_pairs bytewise kp 10%N stale_deleted = [] /\
+  stale_run stale_deleted [CMove MLast; CMove MNext] =
+    Some [mkEO true (Some ([107]%N, [111]%N)) true None; mkEO false None false (Some EOther)].
+Proof. repeat split; vm_compute; reflexivity. Qed.
+Print Assumptions C02_dbiter_prev_error_yields_stale_refuted.
+
 (* 7. The constants of the current source satisfy the side conditions (re-proved on every run). *)
 Theorem C02_constants_ok : dbparams_ok kp.
 Proof. exact kp_db_ok. Qed.
@@ -229,3 +464,50 @@ Proof.
   - destruct He'.
   - destruct a; discriminate.
 Qed.
+
+(* Non-vacuity of 9e: the byte state of C01's example - three table files WRITTEN BY GOLEVELDB (bloom
+   filter; two overlapping level-0 files, a two-block level-1 file) and a model-built memdb - satisfies
+   wf_bstate; the byte-level iterator, evaluated, walks a=a4 b=b1 c=c3 e=e2 f=f1 at sequence number 13 (d and g
+   are hidden by deletion markers in file 5 and in the buffer, older versions of c sit in file 5 and in level
+   1), b=b1 c=c2 e=e2 inside [b, f) at sequence number 8, and nothing over the inverted range [f, b). *)
+From GL Require Import Codec.TblCrc Codec.Bloom Gen.Inst Gen.InstTbl Gen.InstMem Gen.BloomInst Gen.ConstsOkMem.
+From GL Require Props.C01.
+
+Definition ex_dbi (sl : option krange) (s : N) (ms : list (move bytes)) : option (list (output bytes bytes)) :=
+  dbi_run bytewise kp mp tblp tbl_crc C01.ex_nodec C01.ex_fname (bloom_ufc bp (BinInt.Z.of_N 10)) true false 30
+          None [] C01.ex_bstate s sl ms.
+
+Example C02_bytes_nonvacuous :
+  wf_bstate bytewise kp mp tblp tbl_crc C01.ex_nodec C01.ex_fname (bloom_ufc bp (BinInt.Z.of_N 10)) true 2 C01.ex_bstate /\
+  bs_mem C01.ex_bstate <> None /\ MemDB.mparams_ok mp /\
+  ex_dbi None 13%N [MFirst; MNext; MNext; MSeek [100]%N; MPrev; MLast; MNext; MPrev; MPrev] =
+    Some [(true, Some ([97], [97; 52])); (true, Some ([98], [98; 49])); (true, Some ([99], [99; 51]));
+          (true, Some ([101], [101; 50])); (true, Some ([99], [99; 51])); (true, Some ([102], [102; 49]));
+          (false, None); (true, Some ([102], [102; 49])); (true, Some ([101], [101; 50]))]%N /\
+  ex_dbi (Some (Some [98]%N, Some [102]%N)) 8%N [MLast; MPrev; MPrev; MPrev; MPrev; MNext] =
+    Some [(true, Some ([101], [101; 50])); (true, Some ([99], [99; 50])); (true, Some ([98], [98; 49]));
+          (false, None); (false, None); (true, Some ([98], [98; 49]))]%N /\
+  ex_dbi (Some (Some [102]%N, Some [98]%N)) 13%N [MFirst; MLast; MSeek [99]%N; MNext; MPrev] =
+    Some [(false, None); (false, None); (false, None); (false, None); (false, None)].
+Proof.
+  split; [apply C01.ex_wf; left; reflexivity|]. split; [vm_compute; discriminate|]. split; [exact mp_ok|].
+  split; [vm_compute; reflexivity|]. split; vm_compute; reflexivity.
+Qed.
+
+(* Non-vacuity of 10d: two children with interleaved keys, the second one fails at its third call with a
+   non-corruption error (non-strict merged iterator): First, Next, Next answer like the cursor (the second child is
+   called by First and by the Next that leaves its pair); the Prev that must reposition the failing child
+   returns false and records the error; Release and First afterwards return false, the error is kept. *)
+Example C02_nonvacuous_merged_error :
+  Forall (alive_h _ false) [mkFC (nth 0%nat ex_children [], SOI) None EOther false; mkFC (nth 1%nat ex_children [], SOI) (Some 2%nat) EOther false] /\
+  me_run bytes bytes _ (f_step (cur_step (cmp bytewise))) (f_obs cur_obs) f_err (pop_scan bytes (cmp bytewise)) false
+         (me_init [mkFC (nth 0%nat ex_children [], SOI) None EOther false; mkFC (nth 1%nat ex_children [], SOI) (Some 2%nat) EOther false])
+         [CMove MFirst; CMove MNext; CMove MNext; CMove MPrev; CRelease; CMove MFirst] =
+  Some [mkEO true (Some ([1]%N, [10]%N)) true None; mkEO true (Some ([2]%N, [20]%N)) true None;
+        mkEO true (Some ([3]%N, [30]%N)) true None; mkEO false None false (Some EOther);
+        mkEO false None false (Some EOther); mkEO false None false (Some EOther)].
+Proof.
+  split; [|vm_compute; reflexivity].
+  apply Forall_cons; [split; reflexivity|]. apply Forall_cons; [split; reflexivity|]. apply Forall_nil.
+Qed.
+
